@@ -349,6 +349,26 @@ impl SchemaBuilder {
     }
 }
 
+/// An extension found before the definition of the type it extends, of a different kind
+/// than that definition: same error as when it comes after the definition.
+fn extension_kind_mismatch(
+    errors: &mut DiagnosticList,
+    extension: &ast::Definition,
+    definition_name: &Name,
+    describe_def: &'static str,
+) {
+    let name = extension.name().unwrap();
+    errors.push(
+        name.location(),
+        BuildError::TypeExtensionKindMismatch {
+            name: name.clone(),
+            describe_ext: extension.describe(),
+            def_location: definition_name.location(),
+            describe_def,
+        },
+    )
+}
+
 fn add_implicit_root_types(
     schema_def: &mut SchemaDefinition,
     types: &IndexMap<Name, ExtendedType>,
@@ -528,6 +548,8 @@ impl ScalarType {
         for def in &extensions {
             if let ast::Definition::ScalarTypeExtension(ext) = def {
                 ty.extend_ast(errors, ext)
+            } else {
+                extension_kind_mismatch(errors, def, &definition.name, "a scalar type")
             }
         }
         definition.same_location(ty)
@@ -596,6 +618,8 @@ impl ObjectType {
         for def in &extensions {
             if let ast::Definition::ObjectTypeExtension(ext) = def {
                 ty.extend_ast(errors, ext)
+            } else {
+                extension_kind_mismatch(errors, def, &definition.name, "an object type")
             }
         }
         definition.same_location(ty)
@@ -696,6 +720,8 @@ impl InterfaceType {
         for def in &extensions {
             if let ast::Definition::InterfaceTypeExtension(ext) = def {
                 ty.extend_ast(errors, ext)
+            } else {
+                extension_kind_mismatch(errors, def, &definition.name, "an interface type")
             }
         }
         definition.same_location(ty)
@@ -781,6 +807,8 @@ impl UnionType {
         for def in &extensions {
             if let ast::Definition::UnionTypeExtension(ext) = def {
                 ty.extend_ast(errors, ext)
+            } else {
+                extension_kind_mismatch(errors, def, &definition.name, "a union type")
             }
         }
         definition.same_location(ty)
@@ -852,6 +880,8 @@ impl EnumType {
         for def in &extensions {
             if let ast::Definition::EnumTypeExtension(ext) = def {
                 ty.extend_ast(errors, ext)
+            } else {
+                extension_kind_mismatch(errors, def, &definition.name, "an enum type")
             }
         }
         definition.same_location(ty)
@@ -921,6 +951,8 @@ impl InputObjectType {
         for def in &extensions {
             if let ast::Definition::InputObjectTypeExtension(ext) = def {
                 ty.extend_ast(errors, ext)
+            } else {
+                extension_kind_mismatch(errors, def, &definition.name, "an input object type")
             }
         }
         definition.same_location(ty)
